@@ -118,6 +118,7 @@ type probeShape struct {
 	msg       byte // 1 discover, 3 request
 	vlans     [][2]uint16
 	pre       []byte // option bytes before option 53
+	mid       []byte // option bytes between option 53 and option 82 (moves option 82 to another inspected offset)
 	pad       int
 	bcastFlag bool
 	ciaddr    bool
@@ -144,6 +145,7 @@ func buildProbe(c *client, ps probeShape, xid uint32) []byte {
 		o = append(o, 50, 4)
 		o = append(o, c.bound.To4()...)
 	}
+	o = append(o, ps.mid...)
 	src, dst := net.IPv4zero, net.IPv4bcast
 	sport, dport := uint16(68), uint16(67)
 	ethDst := net.HardwareAddr{0xff, 0xff, 0xff, 0xff, 0xff, 0xff}
@@ -487,6 +489,56 @@ func TestFastPathAgreesWithUserspace(t *testing.T) {
 					}
 				}
 				for ci, c := range clients {
+					// a station that is NOT the bound client, behind the same relay, whose circuit-id is a
+					// near miss of the bound client's (longer with the same first bytes, shorter, last byte
+					// different), with Option 82 at each offset the program inspects: never answered from the cache
+					if c.relay != nil && c.cid != nil && c.bound != nil && s%2 == 0 {
+						variants := [][]byte{}
+						for _, extra := range []int{1, 2, 12} {
+							v := append([]byte(nil), c.cid...)
+							for k := 0; k < extra; k++ {
+								v = append(v, byte('0'+rng.IntN(10)))
+							}
+							variants = append(variants, v)
+						}
+						if len(c.cid) > 1 {
+							variants = append(variants, append([]byte(nil), c.cid[:len(c.cid)-1]...))
+							v := append([]byte(nil), c.cid...)
+							v[len(v)-1] ^= 0x20
+							variants = append(variants, v)
+						}
+						for vi, v := range variants {
+							fc := &client{mac: net.HardwareAddr{0x06, 0xfe, byte(h), byte(s), byte(ci), byte(vi)}, relay: c.relay, cid: v}
+							pos := 3
+							var mid []byte
+							if (vi+s/2)%2 == 1 {
+								pos = 12 + rng.IntN(8)
+								mid = append([]byte{61, byte(pos - 5)}, make([]byte, pos-5)...)
+								for j := 2; j < len(mid); j++ {
+									mid[j] = byte(1 + rng.IntN(255))
+								}
+							}
+							ps := probeShape{name: "foreign-near-miss-circuit-id", msg: 1, pad: 120, relayed: true, mid: mid}
+							xid++
+							frame := buildProbe(fc, ps, xid)
+							nat.Clock(uint64(1000+s) * 1_000_000_000)
+							res, err := nat.Run("dhcp_fastpath_prog", frame, cplane.RunOpt{IfIndex: 2})
+							if err != nil {
+								run.Violation("bpf/dhcp_fastpath.c", "memory-safety", "sanitizer-or-guard-fault", err.Error(), map[string]any{"probe": ps.name, "frame": fmt.Sprintf("%x", frame), "history": trace})
+								return
+							}
+							run.Eval()
+							run.Count("probes_"+ps.name, 1)
+							run.Count(fmt.Sprintf("foreign_probe_opt82_offset_%d", pos), 1)
+							if len(v) > 32 {
+								run.Count("foreign_probe_circuit_id_longer_than_key", 1)
+							}
+							if res.Verdict == 3 {
+								run.Violation("dhcp.Server+bpf/dhcp_fastpath.c", "no-answer-without-binding", "never-bound/near-miss-circuit-id", fmt.Sprintf("the fast path answered a station (%s, circuit-id %q, option 82 at offset %d) that has no binding: its circuit-id is a near miss of bound client %s's %q", fc.mac, v, pos, c.mac, c.cid),
+									map[string]any{"history": trace, "frame": fmt.Sprintf("%x", frame), "out": fmt.Sprintf("%x", res.Out)})
+							}
+						}
+					}
 					shapes := []probeShape{
 						{name: "discover", msg: 1, pad: 64},
 						{name: "request", msg: 3, pad: 80},
